@@ -981,10 +981,19 @@ class CreateFromProjections(PSMethod):
         t = cx.this or 'this'
         return [('r', t + '._data'), ('r', t + '._projection', I(0), nb * nx), ('r', t + '._filling'), ('s', t + '._integral')]
 
+    GD = 'ghost.cfp_data'   # ghost: the grid contents at the moment the x-projection is refreshed (the data the charge is measured on)
+
     @property
     def calls(self):
         g3 = lambda cx: [{'n': cx.ghost_of('n'), 'x': cx.ghost_of('x'), 'y': cx.ghost_of('y')}]
-        return {'updateXProjection': Use(UpdateXProjection(), inst=lambda cx: [{'n': cx.ghost_of('n'), 'x': cx.ghost_of('x'), 'k': cx.ghost_of('x')}]),
+        upx_use = Use(UpdateXProjection(), inst=lambda cx: [{'n': cx.ghost_of('n'), 'x': cx.ghost_of('x'), 'k': cx.ghost_of('x')}])
+
+        def upx(ex, n, st, objn, argn, this_override=None):
+            cx = Ctx(ex, st, ex.entry, ex.args0)
+            st.arr[(self.GD, '')] = cx.arr('this._data')
+            ex.logw(('r', self.GD))
+            return upx_use(ex, n, st, objn, argn, this_override)
+        return {'updateXProjection': upx,
                 'integrate': Use(Integrate(), inst=lambda cx: [{'n': cx.ghost_of('n')}]),
                 'normalize': Use(Normalize(), inst=g3)}
 
@@ -997,7 +1006,15 @@ class CreateFromProjections(PSMethod):
         n, x, y = cx.g('n'), cx.g('x'), cx.g('y')
         s_, f_ = cx.sel('this._filling_set', n), cx.sel('this._filling', n)
         want = If(s_ > 0, self.value(cx, n, x, y) * (s_ / f_), z3.RealVal(0))
+        G = cx.arr(self.GD)
+        ws = cx.arr('this._ws')
         return [('product_rescaled_to_share', {'C09'}, Implies(And(n >= 0, n < nb, x >= 0, x < nx, y >= 0, y < ny), cx.sel('this._data', (n * nx + x) * ny + y) == want)),
+                # "each bunch integrates to exactly its share": the charge the rescaling divides by is measured on the product itself —
+                # the x-projection is the Simpson sum over energy of the product data, the population the Simpson sum of that projection
+                ('charge_measured_on_the_product', {'C09'}, Implies(And(n >= 0, n < nb, x >= 0, x < nx, y >= 0, y < ny),
+                                                                    And(z3.Select(G, (n * nx + x) * ny + y) == self.value(cx, n, x, y),
+                                                                        cx.sel('this._projection', n * nx + x) == SP()(G, (n * nx + x) * ny, ws, I(0), ny)))),
+                ('population_is_integral_of_that_projection', {'C09'}, Implies(And(n >= 0, n < nb), f_ == SP()(cx.arr('this._projection'), n * nx, ws, I(0), nx))),
                 ('frame', {'C12'}, self.unchanged(cx, '_ws', '_filling_set'))]
 
     def before(self, cx, n, x, y):
